@@ -321,6 +321,11 @@ class ModeDReader(MeterReaderBase[DataReadout]):
                     _LOGGER.debug("Readout received:\n%s", readout)
                     self._raw_data.clear()
                     self._is_int_hunt_mode = True
+                elif len(self._raw_data) > 8191:
+                    # A readout that never ends, all of it in this call. Discard it here as well, so that
+                    # what is kept does not depend on how the stream is cut into chunks.
+                    self._raw_data.clear()
+                    self._is_int_hunt_mode = True
 
 
 class _ReaderBuffer:
